@@ -224,7 +224,9 @@ class ModelTrainer:
                 chunks_config.data_config.preprocessing.max_height,
                 chunks_config.data_config.preprocessing.max_width,
             )
-            self.crop_hw = chunks_config.data_config.preprocessing.crop_hw[0]
+            # only the centered-instance model has a crop size
+            if chunks_config.data_config.preprocessing.crop_hw is not None:
+                self.crop_hw = chunks_config.data_config.preprocessing.crop_hw[0]
 
         else:
             train_labels = sio.load_slp(self.config.data_config.train_labels_path)
@@ -276,27 +278,28 @@ class ModelTrainer:
                     "symmetries": symm,
                 }
 
-            # if edges and part names aren't set in config, get it from `sio.Labels` object.
-            head_config = self.config.model_config.head_configs[self.model_type]
-            for key in head_config:
-                if "part_names" in head_config[key].keys():
-                    if head_config[key]["part_names"] is None:
-                        part_names = [x.name for x in self.skeletons[0].nodes]
-                        self.config.model_config.head_configs[self.model_type][key][
-                            "part_names"
-                        ] = part_names
-
-                if "edges" in head_config[key].keys():
-                    if head_config[key]["edges"] is None:
-                        edges = [
-                            (x.source.name, x.destination.name)
-                            for x in self.skeletons[0].edges
-                        ]
-                        self.config.model_config.head_configs[self.model_type][key][
-                            "edges"
-                        ] = edges
-
             self.edge_inds = train_labels.skeletons[0].edge_inds
+
+        # if edges and part names aren't set in config, get them from the skeleton (of the labels,
+        # or of the chunks' config when existing chunks are reused).
+        head_config = self.config.model_config.head_configs[self.model_type]
+        for key in head_config:
+            if "part_names" in head_config[key].keys():
+                if head_config[key]["part_names"] is None:
+                    part_names = [x.name for x in self.skeletons[0].nodes]
+                    self.config.model_config.head_configs[self.model_type][key][
+                        "part_names"
+                    ] = part_names
+
+            if "edges" in head_config[key].keys():
+                if head_config[key]["edges"] is None:
+                    edges = [
+                        (x.source.name, x.destination.name)
+                        for x in self.skeletons[0].edges
+                    ]
+                    self.config.model_config.head_configs[self.model_type][key][
+                        "edges"
+                    ] = edges
 
         if (
             rank is None or rank == 0
